@@ -141,7 +141,7 @@ fn verif_grid() {
     {
         let pool = ["k=a v=5", "k=a v=1", "k=a v=9", "k=a v=3", "k=b v=2", "k=a v=7"];
         for (bi, base) in sequences(&pool, 4).into_iter().enumerate() {
-            if base.len() < 3 || (base.len() == 4 && bi % 3 != 0) { continue; }
+            if base.len() < 3 || (base.len() == 4 && left_out(bi, 3)) { continue; }
             let b1 = base.clone();
             g.case(&format!("percentile-refresh-b{}", bi), move || {
                 let st = "SELECT k, PERCENTILE(v, 0.5) AS med, MIN(v) AS lo, MAX(v) AS hi FROM t GROUP BY k";
